@@ -83,6 +83,7 @@ def c12(ctx):
             ctx.samples.append({"generated_sentence_prefix": sents[0][:12], "channels": sorted(chans), "timeout": to})
     res, trace = run_script(ctx, rows, "sender-sentences")
     run_script(ctx, gen.roundtrip_poll(ctx.rng, ctx.q(4000, 40000)), "encode-wait-poll")
+    run_script(ctx, gen.sweep_pn_values(ctx.rng, "poll", step=ctx.q(3, 1), to=ctx.rng.choice([0, 1, 5])), "value-sweep-poll")
     canary(ctx, trace, lambda rows_, rng: _corrupt_exp(rows_, rng))
     vacuity(ctx, ["exp", "grp.rtp", "poll.late.pending", "poll.early.pending"])
     ctx.extra = {"sentences_generated_by_tlc": nsent}
@@ -141,7 +142,8 @@ def system_sweep(ctx, paths_file, kind, to, max_states):
 
 def c15(ctx):
     for kind in ("cc14", "pn", "poll"):
-        run_mc(ctx, "MC_Iso", iso_constants(kind, [0, 1], 2), ["P_C15"], [], workers=12, tag="MC_Iso_" + kind)
+        run_mc(ctx, "MC_Iso", iso_constants(kind, [0, 1], 2), ["P_C15"], [], workers=12, tag="MC_Iso_" + kind,
+               allow_dead=() if kind == "poll" else ("PollA", "TickA"))
     p14 = edges_cc14(ctx, impls=("raw",))
     ppn = edges_pn(ctx, impls=("raw",))
     ppoll = edges_poll(ctx, timeouts=(2,), impls=("raw",))[2]
@@ -150,6 +152,7 @@ def c15(ctx):
         for _ in range(ctx.q(3, 20)):
             rows += gen.twin_isolation(ctx.rng, kind, ctx.q(1500, 4000), to=to)
         rows += pair_battery(ctx, kind, to, ctx.q(40, 150))
+        rows += gen.interference_battery(ctx.rng, kind, to, ctx.q(6, 40))
     res, trace = run_script(ctx, rows, "twin-projection")
     rows = system_sweep(ctx, p14, "cc14", 0, 200) + system_sweep(ctx, ppn, "pn", 0, 200) \
         + system_sweep(ctx, ppoll, "poll", 2, ctx.q(150, 1000))
